@@ -228,6 +228,56 @@ func monC11(w *World, f *Facts, forced bool, racingCancel int) []Violation {
 }
 
 // monPersist: every accepted job reaches the store within the persist interval without an explicit save
+// monPersistInterval is the persist-interval clause at a quiescent state of a history (X2): every job whose request
+// was acknowledged more than a persist interval ago is contained in a save that happened since - whatever else
+// happened or did not happen in the meantime.
+func monPersistInterval(w *World, f *Facts, now time.Duration) []Violation {
+	var vs []Violation
+	if w.Store == nil {
+		return nil
+	}
+	type sv struct {
+		vt   time.Duration
+		snap *store.PersistedData
+	}
+	var saves []sv
+	saveIdx := 0
+	for _, e := range f.Log {
+		if e.Kind == EvSave {
+			if saveIdx < len(w.Store.saves) {
+				saves = append(saves, sv{e.VT, w.Store.saves[saveIdx]})
+			}
+			saveIdx++
+		}
+	}
+	const interval = 3*time.Second + time.Millisecond
+	for _, idx := range f.JobOrder {
+		j := f.Jobs[idx]
+		if j.AcceptEv < 0 {
+			continue
+		}
+		vt := f.Log[j.AcceptEv].VT
+		if now < vt+interval {
+			continue // the interval has not passed yet
+		}
+		ok := false
+		for _, s := range saves {
+			if s.vt >= vt && s.vt <= vt+interval {
+				for _, pj := range s.snap.Jobs {
+					if jobIndex(pj.ID) == idx {
+						ok = true
+					}
+				}
+			}
+		}
+		if !ok {
+			vs = append(vs, Violation{Property: "C11", Rule: "persist-interval", Norm: "accepted-job-not-persisted-in-interval",
+				Msg: fmt.Sprintf("job %d was accepted at %v, it is now %v, and no save within the 3s after the acknowledgement contains it", idx, vt, now)})
+		}
+	}
+	return vs
+}
+
 func monPersist(w *World, f *Facts) []Violation {
 	var vs []Violation
 	if w.Store == nil {
